@@ -28,7 +28,10 @@ warnings.simplefilter("ignore")
 SETTERS = ["fc_setter", "nac_setter", "dataset_setter", "masses_setter", "forces_setter"]
 GETTERS = ["fc_getter", "nac_getter", "dataset_getter", "masses_getter", "displacements_getter",
            "forces_getter", "primitive_getter", "supercell_getter", "unitcell_getter"]
-QUERY_KINDS = ["qp", "qpgv", "dmq", "gvq", "mesh", "meshgv", "band", "bandgv"]
+DM_KINDS = ["qp", "qpgv", "dmq", "gvq", "mesh", "meshgv", "band", "bandgv", "meshfull", "meshlazy", "meshiter"]
+MESH_KINDS = ("mesh", "meshgv", "meshfull", "meshlazy", "meshiter")
+CONSUMERS = ["tp", "tdos", "moment", "meshdict", "pdos", "td"]
+QUERY_KINDS = DM_KINDS + CONSUMERS + ["rdq"]
 ENV_OPS = ("MutateHandle", "Drop", "MutateCopy")
 
 WORLDS = {
@@ -320,6 +323,97 @@ def content_fingerprint(ph):
     return "|".join(parts)
 
 
+def state_fingerprint(ph, what=("fc", "nac", "mass")):
+    """content of what the phonon results are computed from"""
+    parts = []
+    if "fc" in what:
+        parts.append(h(ph._force_constants) if ph._force_constants is not None else "0")
+    if "nac" in what:
+        parts.append(nac_content(ph._nac_params) or "0")
+    if "mass" in what:
+        parts.append(h(ph._primitive._masses))
+    return "|".join(parts)
+
+
+class ResultBook:
+    """Harness bookkeeping of the result holders of one Phonopy object: the
+    contents current when a holder was written (its provenance) and a hash of
+    the results it held then (to see that results obtained earlier stay what
+    they were)."""
+
+    def __init__(self):
+        self.mesh = {}  # id(mesh object) -> fingerprint at creation
+        self.rd = {}    # id(generator) -> fingerprint (fc, mass) at creation
+        self.qp = None  # fingerprint when run_qpoints / run_band_structure last ran
+        self.tp = None  # fingerprint of the mesh the last consumer used
+        self.snap = {}  # holder name -> hash of its results when last written
+        self.keep = []
+
+    def project(self, ph):
+        from phonopy.phonon.mesh import IterMesh
+        now = state_fingerprint(ph)
+        m = ph._mesh
+        if m is None:
+            mesh = dict(st="none", full=False, kind="run", own=False)
+        else:
+            if id(m) not in self.mesh:  # created outside a recorded query: attribute to now
+                self.mesh[id(m)] = now
+                self.keep.append(m)
+            it = isinstance(m, IterMesh)
+            kind = "iter" if it else ("lazy" if m._frequencies is None else "run")
+            full = bool(m.with_eigenvectors and np.prod(m.mesh_numbers) == len(m.ir_grid_points))
+            mesh = dict(st="cur" if self.mesh[id(m)] == now else "old", full=full, kind=kind,
+                        own=bool(m._dynamical_matrix is ph._dynamical_matrix))
+        g = getattr(ph, "_random_displacements", None)
+        if g is None:
+            rd = "none"
+        else:
+            fp = state_fingerprint(ph, ("fc", "mass"))
+            if id(g) not in self.rd:
+                self.rd[id(g)] = fp
+                self.keep.append(g)
+            rd = "cur" if self.rd[id(g)] == fp else "old"
+        qp = "none" if self.qp is None else ("cur" if self.qp == now else "old")
+        tp = "none" if self.tp is None else ("cur" if self.tp == now else "old")
+        return dict(mesh=mesh, rd=rd, qp=qp, tp=tp)
+
+    @staticmethod
+    def holders(ph):
+        """hashes of the results currently retrievable from the object (never
+        triggering a lazy computation)"""
+        out = {}
+        q = getattr(ph, "_qpoints", None)
+        if q is not None:
+            out["qpoints"] = h(q.frequencies)
+        b = ph._band_structure
+        if b is not None:
+            out["band"] = h(np.concatenate([np.ravel(x) for x in b.frequencies]))
+        m = ph._mesh
+        if m is not None and getattr(m, "_frequencies", None) is not None:
+            out["mesh"] = h(m._frequencies)
+        t = ph._thermal_properties
+        if t is not None and t.thermal_properties is not None:
+            out["tp"] = h(*[np.nan_to_num(np.asarray(x, dtype=float)) for x in t.thermal_properties])
+        d = ph._total_dos
+        if d is not None:
+            out["tdos"] = h(d.dos)
+        pd = ph._pdos
+        if pd is not None:
+            out["pdos"] = h(pd.projected_dos)
+        td = ph._thermal_displacements
+        if td is not None and td.thermal_displacements is not None:
+            out["td"] = h(np.nan_to_num(td.thermal_displacements))
+        return out
+
+    def check_frozen(self, ph, rewritten):
+        """results obtained earlier are still what they were; `rewritten`: the
+        holders the call just made wrote"""
+        cur = self.holders(ph)
+        ok = all(self.snap[k] == v for k, v in cur.items() if k in self.snap and k not in rewritten)
+        self.snap = cur
+        return ok
+
+
 def index_maps(ph):
     """primitive-cell index of every supercell / unit-cell atom of a pristine object"""
     prim = ph._primitive
@@ -351,6 +445,8 @@ class Driver:
         self.sr_memo = {}  # hash(short-range fc) -> (fc content, nac content) at first sighting
         self.keepalive = []  # objects kept alive so that ids are never reused
         self.margins = []  # observed |real - fresh| at queries
+        self.book = ResultBook()
+        self.mesh_kind = None  # how the mesh the object holds was set up (to set up the fresh one alike)
         self.nac_seen = {}
 
     # ---------------------------------------------------------------- content
@@ -439,7 +535,7 @@ class Driver:
             canon.setdefault(x.grp, len(canon) + 1)
         held = [dict(cls=x.cls, alias=bool(self.handle_alias(x)), ok=self.handle_content(x) == x.belief,
                      grp=canon[x.grp]) for x in self.held]
-        return dict(core, cp=cp, held=held)
+        return dict(core, cp=cp, held=held, rs=self.book.project(ph))
 
     def scd_matches(self, cells, ds):
         return scd_matches(self.ph, cells, ds)
@@ -472,7 +568,8 @@ class Driver:
         name = op["op"]
         ev = dict(op=name, lay=op.get("lay", "none"), m=op.get("m", "none"), keep=bool(op.get("keep", False)),
                   f=bool(op.get("f", False)), typ=op.get("typ", "none"), cls=op.get("cls", "none"),
-                  k=op.get("k", "none"), i=int(op.get("i", 0)), chg=True, refused=bool(op.get("refused", False)),
+                  k=op.get("k", "none"), i=int(op.get("i", 0)), chg=True, own=bool(op.get("own", True)),
+                  via=op.get("via", "copy"), snapok=True, refused=bool(op.get("refused", False)),
                   err=False, stored=True, qok=True, frame=True, errtext="")
         before = self.content_fingerprint() if (name in ENV_OPS or ev["refused"]) else None
         try:
@@ -483,28 +580,40 @@ class Driver:
         if before is not None:
             ev["frame"] = self.content_fingerprint() == before
         ev["obs"] = self.abs_state(op.get("k") if (name == "Query" and not ev["err"]) else None)
+        ev["snapok"] = self.book.check_frozen(self.ph, ev.pop("rewritten", ()) if not ev["err"] else ())
         return ev
 
     # setters ---------------------------------------------------------------
     def do_SetFC(self, op, ev):
         arr = self.w.fc(self.fresh_k(), self.rng, op["lay"])
-        want = h(arr)
         self.keepalive.append(arr)
-        how = self.k % 4 if not op.get("keep") else 0
-        if how == 1:    # a view that does not own its data (copied by DynamicalMatrix)
+        keep = bool(op.get("keep"))
+        own = bool(op.get("own", True))
+        # the form in which the force constants are handed in: 0 = a C-contiguous float64 array owning
+        # its data (stored without a copy); 1 a view; 2 Fortran order; 3 nested list; 4 float32
+        how = (0 if own else 1 + self.k % 4) if keep else self.k % 4
+        if how == 3 and not keep and self.ph._dynamical_matrix is None:
+            how = 0
+        if how == 1:
             big = np.zeros((arr.shape[0] + 1,) + arr.shape[1:])
             big[1:] = arr
             self.keepalive.append(big)
-            self.ph.force_constants = big[1:]
-        elif how == 2:  # Fortran-ordered array
-            self.ph.force_constants = np.asfortranarray(arr)
-        elif how == 3 and self.ph._dynamical_matrix is not None:  # nested list
-            self.ph.force_constants = arr.tolist()
+            handed = big[1:]
+        elif how == 2:
+            handed = np.asfortranarray(arr)
+        elif how == 3:
+            handed = arr.tolist()
+        elif how == 4:
+            handed = arr.astype("float32")
         else:
-            self.ph.force_constants = arr
-        ev["stored"] = self.ph._force_constants is not None and h(self.ph._force_constants) == want
-        if op.get("keep") and self.room():
-            self.add_handle("fc_setter", arr)
+            handed = arr
+        want = h(np.asarray(handed, dtype="double"))
+        self.keepalive.append(handed)
+        self.ph.force_constants = handed
+        ev["stored"] = self.ph._force_constants is not None and h(self.ph._force_constants) == want \
+            and isinstance(self.ph._force_constants, np.ndarray) and self.ph._force_constants.dtype == np.dtype("double")
+        if keep and self.room():
+            self.add_handle("fc_setter", handed)
 
     def do_SetNAC(self, op, ev):
         d = self.w.nac(self.fresh_k(), self.rng, op["m"], self.perturb_nac)
@@ -609,13 +718,34 @@ class Driver:
         ev["stored"] = cells is not None and self.scd_matches(cells, self.ph._dataset)
 
     def do_Copy(self, op, ev):
-        self.cp = self.ph.copy()
+        ph = self.ph
+        if op.get("via", "copy") == "ph2ph":
+            self.cp = quiet(ph.ph2ph, self.w.S)
+            fr = self.fresh_object()
+            ref = quiet(fr.ph2ph, self.w.S)
+            same = np.abs(self.cp._force_constants - ref._force_constants).max() <= 1e-10 * max(1.0, self.w.scale)
+        else:
+            self.cp = ph.copy()
+            same = self.cp._force_constants is None and self.cp._nac_params is None
         self.keepalive.append(self.cp)
-        self.cp_belief = h(self.ph._primitive._masses)  # what a copy has to contain
-        ev["stored"] = (self.cp._force_constants is None and self.cp._nac_params is None
-                        and np.array_equal(self.cp._supercell_matrix, self.ph._supercell_matrix)
-                        and np.abs(self.cp._unitcell.cell - self.ph._unitcell.cell).max() == 0
-                        and np.abs(self.cp._unitcell.scaled_positions - self.ph._unitcell.scaled_positions).max() == 0)
+        self.cp_belief = h(ph._primitive._masses)  # what a copy has to contain
+        ev["stored"] = bool(same
+                            and np.array_equal(self.cp._supercell_matrix, ph._supercell_matrix)
+                            and np.abs(self.cp._unitcell.cell - ph._unitcell.cell).max() == 0
+                            and np.abs(self.cp._unitcell.scaled_positions - ph._unitcell.scaled_positions).max() == 0)
+
+    def do_ClearDataset(self, op, ev):
+        self.ph.dataset = None
+        ev["stored"] = self.ph._dataset is None
+
+    def do_InitRD(self, op, ev):
+        quiet(self.ph.init_random_displacements)
+        g = self.ph._random_displacements
+        self.book.rd[id(g)] = state_fingerprint(self.ph, ("fc", "mass"))
+        self.book.keep.append(g)
+
+    def do_SetGV(self, op, ev):
+        quiet(self.ph.set_group_velocity, q_length=0.03 * (1 + self.fresh_k() % 3))  # coarse: differs visibly from the analytic derivative
 
     def do_Get(self, op, ev):
         c = op["cls"]
@@ -664,14 +794,46 @@ class Driver:
             out["frequencies"] = np.array([quiet(ph.get_frequencies, q) for q in qs])
         elif kind == "gvq":
             out["group_velocities"] = np.array([np.array(quiet(ph.get_group_velocity_at_q, q)) for q in qs])
-        elif kind in ("mesh", "meshgv"):
-            quiet(ph.run_mesh, [3, 3, 2], with_eigenvectors=False, with_group_velocities=(kind == "meshgv"),
-                  is_gamma_center=True)
+        elif kind in MESH_KINDS:
+            self.setup_mesh(ph, kind)
+            if kind in ("mesh", "meshgv", "meshfull"):
+                d = ph.get_mesh_dict()
+                out["frequencies"] = np.array(d["frequencies"])
+                out["weights"] = np.array(d["weights"], dtype=float)
+                if kind == "meshgv":
+                    out["group_velocities"] = np.array(d["group_velocities"])
+        elif kind == "tp":
+            quiet(ph.run_thermal_properties, t_min=0, t_max=300, t_step=100)
+            d = ph.get_thermal_properties_dict()
+            for key in ("free_energy", "entropy", "heat_capacity"):
+                out[key] = np.nan_to_num(np.array(d[key], dtype=float))
+        elif kind == "tdos":
+            quiet(ph.run_total_dos)
+            d = ph.get_total_dos_dict()
+            out["frequency_points"] = np.array(d["frequency_points"])
+            out["total_dos"] = np.array(d["total_dos"])
+        elif kind == "moment":
+            quiet(ph.run_moment, order=1)
+            out["moment"] = np.array([ph.get_moment()])
+        elif kind == "meshdict":
             d = ph.get_mesh_dict()
             out["frequencies"] = np.array(d["frequencies"])
             out["weights"] = np.array(d["weights"], dtype=float)
-            if kind == "meshgv":
-                out["group_velocities"] = np.array(d["group_velocities"])
+        elif kind == "pdos":
+            quiet(ph.run_projected_dos)
+            d = ph.get_projected_dos_dict()
+            out["frequency_points"] = np.array(d["frequency_points"])
+            out["projected_dos"] = np.array(d["projected_dos"])
+        elif kind == "td":
+            quiet(ph.run_thermal_displacements, t_min=0, t_max=300, t_step=100, freq_min=0.5)
+            out["thermal_displacements"] = np.nan_to_num(np.array(ph.get_thermal_displacements_dict()["thermal_displacements"]))
+        elif kind == "tdm":
+            quiet(ph.run_thermal_displacement_matrices, t_min=0, t_max=300, t_step=100, freq_min=0.5)
+            out["thermal_displacement_matrices"] = np.nan_to_num(
+                np.array(ph.get_thermal_displacement_matrices_dict()["thermal_displacement_matrices"]))
+        elif kind == "rdq":
+            out["random_displacements"] = np.nan_to_num(np.array(
+                quiet(ph.get_random_displacements_at_temperature, 300, 2, random_seed=7)))
         elif kind in ("band", "bandgv"):
             paths = [np.array([[0.0, 0.0, 0.0], [0.25, 0.1, 0.0], [0.5, 0.2, 0.1]]),
                      np.array([[0.5, 0.5, 0.5], [0.3, 0.3, 0.3], [0.0, 0.0, 0.0]])]
@@ -682,6 +844,19 @@ class Driver:
                 out["group_velocities"] = np.array(d["group_velocities"])
         return out
 
+    @staticmethod
+    def setup_mesh(ph, kind):
+        if kind in ("mesh", "meshgv"):
+            quiet(ph.run_mesh, [3, 3, 2], with_eigenvectors=False, with_group_velocities=(kind == "meshgv"),
+                  is_gamma_center=True)
+        elif kind == "meshfull":
+            quiet(ph.run_mesh, [3, 3, 2], with_eigenvectors=True, is_mesh_symmetry=False, is_gamma_center=True)
+        elif kind == "meshlazy":
+            quiet(ph.init_mesh, [3, 3, 2], is_gamma_center=True)
+        elif kind == "meshiter":
+            quiet(ph.init_mesh, [2, 2, 2], with_eigenvectors=True, is_mesh_symmetry=False, is_gamma_center=True,
+                  use_iter_mesh=True)
+
     def fresh_object(self):
         """A freshly constructed object given the current structure, force
         constants, NAC parameters and masses (copies: nothing is shared)."""
@@ -690,32 +865,59 @@ class Driver:
         uc = w.unitcell
         cell = PhonopyAtoms(symbols=list(uc.symbols), cell=np.array(uc.cell), scaled_positions=np.array(uc.scaled_positions),
                             masses=pm[w.u2pp])
-        fr = w.new_phonopy(cell)
+        fr = quiet(Phonopy, cell, supercell_matrix=w.S, primitive_matrix=w.P, log_level=0,
+                   group_velocity_delta_q=ph._gv_delta_q)
         if ph.nac_params is not None:
             fr.nac_params = copy.deepcopy(ph.nac_params)
         fr.force_constants = np.array(ph.force_constants, dtype="double", order="C")
         return fr
 
     TOL = {"frequencies": 1e-8, "dynamical_matrices": 1e-9, "group_velocities": 1e-6, "weights": 1e-12}
+    TOL_DEFAULT = 1e-8  # thermal quantities, DOS, displacements (observed: bitwise equal)
 
     def do_Query(self, op, ev):
         kind = op["k"]
-        got = self.run_query(self.ph, kind)
+        ph = self.ph
+        fp = state_fingerprint(ph)
+        mesh_fp = self.book.mesh.get(id(ph._mesh)) if ph._mesh is not None else None
+        got = self.run_query(ph, kind)
+        # bookkeeping of the holders this query wrote (provenance = the contents current now)
+        if kind in ("qp", "qpgv"):
+            self.book.qp = fp
+            ev["rewritten"] = ("qpoints",)
+        elif kind in ("band", "bandgv"):
+            self.book.qp = fp
+            ev["rewritten"] = ("band",)
+        elif kind in MESH_KINDS:
+            self.book.mesh[id(ph._mesh)] = fp
+            self.book.keep.append(ph._mesh)
+            self.mesh_kind = kind
+            ev["rewritten"] = ("mesh",)
+        elif kind in CONSUMERS:
+            if kind != "meshdict":
+                self.book.tp = mesh_fp
+            ev["rewritten"] = ("mesh", "tp", "tdos", "pdos", "td")  # (a lazy mesh computes now)
         if op.get("refused"):
             return
-        want = self.run_query(self.fresh_object(), kind)
+        # the same query on a freshly constructed object given the current contents
+        fr = self.fresh_object()
+        if kind in CONSUMERS:
+            self.setup_mesh(fr, self.mesh_kind)
+        elif kind == "rdq":
+            quiet(fr.init_random_displacements)
+        want = self.run_query(fr, kind)
         ok = True
         worst = 0.0
         for key, a in got.items():
             b = want[key]
+            tol = self.TOL.get(key, self.TOL_DEFAULT)
             if a.shape != b.shape or not np.isfinite(a).all():
                 ok = False
                 worst = float("inf")
                 continue
             d = float(np.abs(a - b).max()) if a.size else 0.0
-            rel = d / self.TOL[key]
-            worst = max(worst, rel)
-            if d > self.TOL[key]:
+            worst = max(worst, d / tol)
+            if d > tol:
                 ok = False
         self.margins.append(worst)
         ev["qok"] = ok
@@ -727,8 +929,11 @@ class Driver:
         o, c = hd.obj, hd.cls
         eps = float(self.rng.uniform(0.5, 1.5))
         if c in ("fc_setter", "fc_getter"):
-            o[0, 0] += 0.013 * self.w.scale * eps
-            o[-1, -1, 0, 1] -= 0.007 * self.w.scale * eps
+            if isinstance(o, list):
+                o[0][0][0][0] += 0.013 * self.w.scale * eps
+            else:
+                o[0, 0] += 0.013 * self.w.scale * eps
+                o[-1, -1, 0, 1] -= 0.007 * self.w.scale * eps
         elif c in ("masses_setter", "masses_getter"):
             o[0] += 0.37 * eps
         elif c in ("forces_setter", "forces_getter"):
@@ -774,13 +979,25 @@ class Driver:
 # abstract bookkeeping mirror used by the random generator to issue only
 # enabled operations (the specification, via TLC, is the judge - this mirror is
 # just the harness's way of choosing; a wrong mirror shows up as ConformsEnabled)
+def consumer_enabled(k, mesh):
+    if mesh["st"] == "none":
+        return False
+    if k in ("pdos", "td") and not mesh["full"]:
+        return False
+    if mesh["kind"] == "iter" and k != "td":
+        return False
+    return True
+
+
 def enabled_ops(obs, max_held):
     held = obs["held"]
     room = len(held) < max_held
+    rs = obs["rs"]
     ops = []
     for lay in ("full", "compact"):
-        for keep in (False, True):
-            ops.append(dict(op="SetFC", lay=lay, keep=keep and room))
+        ops.append(dict(op="SetFC", lay=lay, keep=False, own=True))
+        for own in (True, False):
+            ops.append(dict(op="SetFC", lay=lay, keep=room, own=own or not room))
     for m in ("wang", "gonze"):
         for keep in (False, True):
             ops.append(dict(op="SetNAC", m=m, keep=keep and room))
@@ -789,7 +1006,7 @@ def enabled_ops(obs, max_held):
     for keep in (False, True):
         ops.append(dict(op="SetMasses", keep=keep and room))
     if obs["layout"] != "none":
-        ops += [dict(op="Symmetrize"), dict(op="Cutoff")]
+        ops += [dict(op="Symmetrize"), dict(op="Cutoff"), dict(op="InitRD"), dict(op="Copy", via="ph2ph")]
     if obs["layout"] == "full":
         ops.append(dict(op="SymmetrizeSG"))
     for f in (False, True):
@@ -799,10 +1016,11 @@ def enabled_ops(obs, max_held):
     if obs["dsT"] != "t1":
         ops.append(dict(op="SetDisplacements"))
     if obs["dsT"] != "none":
-        ops += [dict(op="SetForces", keep=False), dict(op="SetForces", keep=room), dict(op="GetSCD")]
+        ops += [dict(op="SetForces", keep=False), dict(op="SetForces", keep=room), dict(op="GetSCD"),
+                dict(op="ClearDataset")]
     if obs["dsT"] == "t1" and obs["dsF"]:
         ops += [dict(op="ProduceFC", lay="full"), dict(op="ProduceFC", lay="compact")]
-    ops.append(dict(op="Copy"))
+    ops.append(dict(op="Copy", via="copy"))
     if room:
         for c in GETTERS:
             sl = Driver.slot_of(c)
@@ -812,9 +1030,16 @@ def enabled_ops(obs, max_held):
                 ok = False
             if ok:
                 ops.append(dict(op="Get", cls=c))
-    for k in QUERY_KINDS:
+    for k in DM_KINDS:
         if (k == "dmq" and obs["layout"] != "none") or (k != "dmq" and obs["dm"]["on"]):
             ops.append(dict(op="Query", k=k))
+    for k in CONSUMERS:
+        if consumer_enabled(k, rs["mesh"]):
+            ops.append(dict(op="Query", k=k))
+    if rs["rd"] != "none":
+        ops.append(dict(op="Query", k="rdq"))
+    if obs["dm"]["on"]:
+        ops.append(dict(op="SetGV"))
     for i in range(1, len(held) + 1):
         ops.append(dict(op="MutateHandle", i=i))
         ops.append(dict(op="Drop", i=i))
@@ -836,12 +1061,15 @@ def refused_ops(obs):
         ops.append(dict(op="SetDisplacements", refused=True))
     if obs["dsT"] == "none":
         ops.append(dict(op="SetForces", refused=True))
+    if obs["rs"]["mesh"]["st"] == "none":
+        ops += [dict(op="Query", k=k, refused=True) for k in ("tp", "tdos", "meshdict", "td")]
     return ops
 
 
 WEIGHT = {"SetFC": 3, "SetNAC": 3, "ClearNAC": 2, "SetMasses": 3, "Symmetrize": 3, "SymmetrizeSG": 2, "Cutoff": 3,
           "SetDataset": 1.2, "SetDisplacements": 1, "SetForces": 2, "ProduceFC": 4, "GetSCD": 2, "Copy": 2,
-          "Get": 1.2, "Query": 2.2, "MutateHandle": 2, "Drop": 2.5, "MutateCopy": 2}
+          "Get": 1.2, "Query": 1.1, "MutateHandle": 2, "Drop": 2.5, "MutateCopy": 2, "ClearDataset": 0.7,
+          "InitRD": 1.2, "SetGV": 0.8}
 
 
 def random_history(world, rng, length, max_held=2, allow_aliased_env=False, perturb_nac=False, p_refuse=0.04):
@@ -872,7 +1100,7 @@ def random_history(world, rng, length, max_held=2, allow_aliased_env=False, pert
                 wts = np.array([WEIGHT[o["op"]] * (0.35 if o.get("keep") else 1.0) for o in ops], dtype=float)
                 # a query soon after every state change
                 if events and events[-1]["op"] not in ("Query", "Get", "Drop", "GetSCD") and obs["dm"]["on"]:
-                    wts = np.array([w * (4.0 if o["op"] == "Query" else 1.0) for w, o in zip(wts, ops)])
+                    wts = np.array([w * (2.0 if o["op"] == "Query" else 1.0) for w, o in zip(wts, ops)])
                 op = ops[int(rng.choice(len(ops), p=wts / wts.sum()))]
         ev = drv.step(op)
         events.append(ev)
